@@ -368,6 +368,32 @@ func (w *cworld) execFault(op string) (string, int, bool) {
 	if at == nil || !at.up {
 		return "", 0, true
 	}
+	// never ask for a change after which the running servers are no quorum (the call would block until the harness gives up)
+	if info, e := l.cc.VerifRaftInfo(); e == nil && j != nullPeer {
+		servers, live := len(info.Servers), 0
+		member := false
+		for _, sid := range info.Servers {
+			if pp, e2 := peer.Decode(sid); e2 == nil {
+				if k, ok := w.byID[pp]; ok && w.nodes[k].up {
+					live++
+				}
+				if pp == pid {
+					member = true
+				}
+			}
+		}
+		if f[0] == "frm" && member {
+			servers--
+			if j < len(w.nodes) && w.nodes[j].up {
+				live--
+			}
+		} else if f[0] == "fadd" && !member {
+			servers++
+		}
+		if 2*live <= servers {
+			return "", 0, true
+		}
+	}
 	if xfer && (j == nullPeer || j == l.idx || len(w.followers(l)) == 0) {
 		return "", 0, true
 	}
@@ -570,6 +596,14 @@ func runFaultScript(out *common.Out, mu *sync.Mutex, scratch string, tag string,
 			tok = t + "@" + has
 			done = append(done, tok)
 			emit("%s %s => %s", faultHead(s), strings.Join(done, " "), obs2)
+			// a running peer that has been removed (nobody lists it any more) takes no further part: the model's callers
+			// and observers are servers of the configuration
+			if j >= 0 && j < len(w.nodes) && w.nodes[j].up && has == "none" {
+				if !within(opTimeout, func() { w.stopNode(w.nodes[j]) }) {
+					emit("# inconclusive stop-removed %s %s", faultHead(s), strings.Join(done, " "))
+					return
+				}
+			}
 			continue
 		}
 		if strings.HasPrefix(op, "pin@") {
